@@ -1,5 +1,6 @@
 import SfxModel.DriverArith
 import SfxModel.DriverWrap
+import SfxModel.DriverCodec
 /-
   Main.lean — line-protocol driver.  stdin: the Rust harness' output, one `request => answer` per line.
   For every line: recompute the answer with the model (projected to the build profile given as the first
@@ -26,9 +27,13 @@ def bump (ops : List (String × Nat)) (op : String) : List (String × Nat) :=
   | [] => [(op, 1)]
   | (o, c) :: rest => if o == op then (o, c + 1) :: rest else (o, c) :: bump rest op
 
+def codecOps : List String := ["encode", "int_encode", "encoded_size", "max_encoded_len", "decode", "to_le_bytes", "to_be_bytes",
+  "to_ne_bytes", "from_le_bytes", "from_be_bytes", "from_ne_bytes", "bits_roundtrip", "wrapping_bits"]
+
 /-- model answer, already rendered for the profile (`none`: no model for this request) -/
 def modelOf (prof : Profile) (L : Layout) (op : String) (args : List String) : Option String :=
   if op == "wprog" then (DriverWrap.run L prof args).map (·.1)
+  else if codecOps.contains op then DriverCodec.model L op args
   else match args.mapM String.toInt? with
   | some ints => (DriverArith.model L (DriverArith.baseOp op) ints).map (Outcome.render prof)
   | none => none
@@ -36,6 +41,7 @@ def modelOf (prof : Profile) (L : Layout) (op : String) (args : List String) : O
 /-- documented answer, rendered (`none`: unconstrained) -/
 def specOf (prof : Profile) (L : Layout) (op : String) (args : List String) : Option String :=
   if op == "wprog" then (DriverWrap.run L prof args).map (·.2)
+  else if codecOps.contains op then DriverCodec.spec L op args
   else match args.mapM String.toInt? with
   | some ints => (DriverArith.spec L (DriverArith.baseOp op) ints).map (Outcome.render prof)
   | none => none
@@ -44,7 +50,7 @@ def isSpecial (ans : String) : Bool := ans == "P" || ans == "N" || ans.endsWith 
 
 def argsInRange (L : Layout) (op : String) (args : List String) : Bool :=
   -- operands of typed arithmetic requests are bit patterns of the layout (the driver rejects others)
-  if op.startsWith "h_div_rem_from" || op == "wprog" then true
+  if op.startsWith "h_div_rem_from" || op == "wprog" || op == "decode" || op.startsWith "from_" then true
   else args.all (fun a => match a.toInt? with | some i => decide (inRange L i) | none => true)
 
 partial def loop (prof : Profile) (h : IO.FS.Stream) (out : IO.FS.Stream) (st : Stats) : IO Stats := do
